@@ -10,6 +10,14 @@ R = {
    text="TLC explores Disclosure.tla, a symbolic generic-group model of ProofD verification in which challenges are indeterminates, over every proof a prover can reach from the honest one by up to 2 (thorough 3) deviations, and checks Authentic; every emitted abstract proof is assembled for real by a cheating prover inside the harness (math/big, knows the credential and the group order) and submitted to ProofD.Verify and ProofList.Verify, acceptance being judged on the concrete proof; exact response-size boundaries go through ProofD.VerifyWithChallenge.",
    note="Idealised algebra in the model (strong RSA, SHA-256 not attacked); 2-3 attributes and four value classes in the model; fixed 1024-bit keys in the replay; HashCommit trusted here (C15).",
    tech="TLA+ symbolic adversary model + TLC exhaustive model checking; generated adversarial proofs replayed on the real verifier"),
+ "C02": dict(engine="ProofList.tla", design="5/C02, 13",
+   text="TLC explores ProofList.tla: a free adversary owning all proofs of two honest sessions assembles attempts proof by proof with arbitrary keys, labels, context, nonce, flag, short key lists; invariant Bound (acceptance implies the attempt is exactly one honest session verified with its own tuple). Every attempt of length <= 2 for selected builder configurations (thorough: plus sampled length 3) is assembled from two real sessions and given to ProofList.Verify.",
+   note="Fiat-Shamir hash injective in the model (C15 covers the encoding); lists of <= 2 builders, attempts of <= 2 (3) proofs; 1024-bit keys; nonrev/range-carrying proofs are exercised by C11/C12, not here.",
+   tech="TLA+ free-adversary state machine + TLC exhaustive model checking; every generated attempt replayed on the real verifier"),
+ "C03": dict(engine="ProofList.tla", design="5/C03, 13",
+   text="Same model and replay as C02 with the invariant LinkedOK: acceptance implies all proofs under one label are bound to one effective secret, including the side doors 'disclosure proof that discloses attribute 0' and 'issuance commitment with a second response on base R_0' reached through the public builders.",
+   note="Two secrets, two keys; effective secret of an r0 commitment is decided symbolically (the resulting credential is not re-verified); 1024-bit keys.",
+   tech="TLA+ free-adversary state machine + TLC exhaustive model checking; every generated attempt replayed on the real verifier"),
  "C04": dict(engine="Disclosure.tla", design="5/C04, 13",
    text="TLC enumerates every credential over four value classes with up to 4 (thorough 5) attributes and every disclosure subset in the honest fragment of Disclosure.tla and checks HonestComplete; for every emitted case the library's own prover is run for both session kinds and the harness checks verification, exact key sets and values, absence of hidden values from the serialised proof and the timestamp contribution, and rejection for the other session kind.",
    note="Syntactic minimality only (no statistical hiding); 1024-bit keys; byte search only for hidden values of at least 64 bits.",
@@ -22,6 +30,10 @@ R = {
    text="Serial.tla has four small machines (file modes of WriteToFile as the syscalls issued, message types with optional parts and unserialised fields, key-document grammar with mutations, big-integer boundary classes); TLC checks PrivateStaysPrivate, MeaningPreserved and EverythingDecodes and emits every case; the harness executes each against the real code (temp dirs and os.Stat, real messages round-tripped and verified again, mutated key XML fed to every constructor, integers through all encodings).",
    note="Runs as root (permission checks do not apply); 1024-bit keys; mutations are single-element; D21 (negative K not serialisable) is a known finding.",
    tech="TLA+ state machines checked with TLC; every generated case replayed on the real code"),
+ "C19": dict(engine="NumTheory.tla", design="5/C19, 13",
+   text="NumTheory.tla states the mathematical meaning of every helper by different algorithms than the code; TLC checks cross-consistency lemmas, emits expected-result tables over exhaustive small domains that are replayed on the real helpers, and validates call records (incl. aliased-operand variants) streamed from the real code against the postconditions; random large operands are checked by the same relations in math/big and reported separately.",
+   note="TLC arithmetic is 32-bit: exhaustive only for p < 2^8..2^12, n < 2^14..2^20, b <= 9..12; large operands (<= 4096 bits) are a weaker differential check against math/big.",
+   tech="TLA+ mathematical definitions evaluated by TLC; tables replayed on and call records validated from the real code"),
  "C10": dict(engine="RevAuth.tla", design="5/C10, 13",
    text="TLC explores every update message an adversary can assemble from a genuine one by up to 2 mutations plus JSON/CBOR transport in RevAuth.tla and checks that the transcribed acceptance predicates imply authenticity; every single-mutation message (thorough: plus a seeded sample of double mutations) is materialised byte for byte and fed to Update.Verify, Witness.Update, EventList.Verify, Update.Prepend and Hash.Equal in memory and after real JSON/CBOR round trips.",
    note="Hash injective and signatures unforgeable in the model; chains of 3 events, 2 chains under one key; toy moduli; the unserialised SignedAccumulator.Accumulator memo is clear on received messages.",
